@@ -15,6 +15,10 @@ Binding: seeded histories of 1-3 real WBEMSubscriptionManager objects (IDs
         permanent, duplicates, removal while referenced), remove_server,
         remove_all_servers, context exit, client restart (new manager, same ID),
         foreign instances; TLC judges every event.
+        Round 3: instance paths given to remove_* in the form the server
+        returns them from the *Names operations (with host); owned IDs that
+        contain ':'; client-side mutation of the lists get_owned_* / get_all_*
+        hand out; the idiom "for inst in get_owned_X(): remove_X(inst.path)".
 """
 import copy
 import os
@@ -63,6 +67,22 @@ def fresh_server(sv):
     return copy.deepcopy(server_template(sv))
 
 
+def xcls_of(xid):
+    """Value class of an owned destination / filter ID (SubMgr.tla: xcls)."""
+    return "colon" if ":" in xid else "plain"
+
+
+GETTERS = {"owned_d": "get_owned_destinations", "owned_f": "get_owned_filters",
+           "owned_s": "get_owned_subscriptions",
+           "all_d": "get_all_destinations", "all_f": "get_all_filters",
+           "all_s": "get_all_subscriptions"}
+MUTATIONS = ("clear", "pop", "extend", "dup")
+
+
+def sub_name(inst):
+    return "%s|%s" % (inst.path["Filter"]["Name"], inst.path["Handler"]["Name"])
+
+
 class World:
     def __init__(self, rng, nservers):
         self.rng = rng
@@ -76,6 +96,10 @@ class World:
         self.creator_at = []
 
     # -- observation ---------------------------------------------------------
+    def store(self, sv):
+        return list(self.conns[sv].cimrepository.get_instance_store(
+            INTEROP).iter_values(copy=False))
+
     def content(self):
         out = []
         for sv in (1, 2):
@@ -83,13 +107,17 @@ class World:
             if conn is None:
                 out.append(dict(sv=sv, d=[], f=[], s=[]))
                 continue
-            d = [i["Name"] for i in conn.EnumerateInstances(
-                "CIM_ListenerDestinationCIMXML", namespace=INTEROP)]
-            f = [i["Name"] for i in conn.EnumerateInstances(
-                "CIM_IndicationFilter", namespace=INTEROP)]
-            s = ["%s|%s" % (i.path["Filter"]["Name"], i.path["Handler"]["Name"])
-                 for i in conn.EnumerateInstances(
-                     "CIM_IndicationSubscription", namespace=INTEROP)]
+            # read directly from the interop instance store of the mock
+            # server (no operation, no copies)
+            d, f, s = [], [], []
+            for i in self.store(sv):
+                cln = i.classname.lower()
+                if cln == "cim_listenerdestinationcimxml":
+                    d.append(i["Name"])
+                elif cln == "cim_indicationfilter":
+                    f.append(i["Name"])
+                elif cln == "cim_indicationsubscription":
+                    s.append(sub_name(i))
             out.append(dict(sv=sv, d=sorted(d), f=sorted(f), s=sorted(s)))
         return out
 
@@ -110,7 +138,8 @@ class World:
 
     def record(self, ev, res, code=0, what=""):
         base = dict(op="", m=0, sv=1, id="", owned=True, xid="", name="",
-                    url="", badargs=False, fname="", dname="", kind="")
+                    url="", badargs=False, fname="", dname="", kind="",
+                    pform="plain", xcls="plain", how="", visited=[])
         base.update(ev)
         base.update(res=res, code=code, content=self.content(),
                     owned_lists=self.owned_lists())
@@ -151,9 +180,9 @@ class World:
                     what="mgr(%r).add_server(server %d)" % (mid, sv))
 
     def _paths(self, sv, cls, name):
-        for i in self.conns[sv].EnumerateInstances(cls, namespace=INTEROP):
-            if i["Name"] == name:
-                return i.path
+        for i in self.store(sv):
+            if i.classname.lower() == cls.lower() and i["Name"] == name:
+                return i.path.copy()
         return None
 
     def add_destination(self, m, sv, url, owned, xid, name, badargs):
@@ -174,7 +203,8 @@ class World:
         except Exception as exc:  # noqa
             res, code = self.classify(exc)
         self.record(dict(op="add_destination", m=m, sv=sv, url=url,
-                         owned=owned, xid=xid, name=name, badargs=badargs),
+                         owned=owned, xid=xid, name=name, badargs=badargs,
+                         xcls=xcls_of(xid)),
                     res, code, what="mgr(%r).add_destination(%s, %s)" %
                     (mid, URLS[url], kw))
 
@@ -193,7 +223,8 @@ class World:
         except Exception as exc:  # noqa
             res, code = self.classify(exc)
         self.record(dict(op="add_filter", m=m, sv=sv, owned=owned, xid=xid,
-                         name=name, badargs=badargs), res, code,
+                         name=name, badargs=badargs, xcls=xcls_of(xid)),
+                    res, code,
                     what="mgr(%r).add_filter(%s)" % (mid, kw))
 
     def add_subscription(self, m, sv, fname, dname, owned):
@@ -219,36 +250,99 @@ class World:
                     what="mgr(%r).add_subscriptions(%s, %s, owned=%s)" %
                     (mid, fname, dname, owned))
 
-    def remove(self, kind, m, sv, fname="", dname=""):
+    def _form(self, sv, path, pform):
+        """Concretise the path form: "plain" = as handed out by the manager /
+        the instance operations, "host" = as the server returns paths from
+        ReferenceNames / AssociatorNames (same instance, host filled in)."""
+        if pform == "host":
+            path = path.copy()
+            path.host = self.conns[sv].host
+        return path
+
+    def remove(self, kind, m, sv, fname="", dname="", pform="plain",
+               path=None):
         mgr, mid = self.mgrs[m]
         sid = self.sids[(m, sv)]
         try:
             if kind == "destination":
-                p = self._paths(sv, "CIM_ListenerDestinationCIMXML", dname)
+                p = path or self._paths(sv, "CIM_ListenerDestinationCIMXML",
+                                        dname)
                 if p is None:
                     return
-                mgr.remove_destinations(sid, p)
+                mgr.remove_destinations(sid, self._form(sv, p, pform))
             elif kind == "filter":
-                p = self._paths(sv, "CIM_IndicationFilter", fname)
+                p = path or self._paths(sv, "CIM_IndicationFilter", fname)
                 if p is None:
                     return
-                mgr.remove_filter(sid, p)
+                mgr.remove_filter(sid, self._form(sv, p, pform))
             else:
-                sp = None
-                for i in self.conns[sv].EnumerateInstances(
-                        "CIM_IndicationSubscription", namespace=INTEROP):
-                    if i.path["Filter"]["Name"] == fname and \
+                sp = path
+                for i in ([] if sp else self.store(sv)):
+                    if i.classname.lower() == "cim_indicationsubscription" \
+                            and i.path["Filter"]["Name"] == fname and \
                             i.path["Handler"]["Name"] == dname:
-                        sp = i.path
+                        sp = i.path.copy()
                 if sp is None:
                     return
-                mgr.remove_subscriptions(sid, sp)
+                mgr.remove_subscriptions(sid, self._form(sv, sp, pform))
             res, code = "ok", 0
         except Exception as exc:  # noqa
             res, code = self.classify(exc)
         self.record(dict(op="remove_" + kind, m=m, sv=sv, fname=fname,
-                         dname=dname), res, code,
-                    what="mgr(%r).remove_%s(%s %s)" % (mid, kind, fname, dname))
+                         dname=dname, pform=pform), res, code,
+                    what="mgr(%r).remove_%s(%s %s%s)" % (
+                        mid, kind, fname, dname,
+                        ", path with host" if pform == "host" else ""))
+
+    def client_mutate(self, m, sv, kind, how):
+        """The client changes a list the manager handed out (not a manager
+        call; SubMgr.tla: client_mutate leaves the truth unchanged)."""
+        mgr, mid = self.mgrs[m]
+        sid = self.sids[(m, sv)]
+        lst = getattr(mgr, GETTERS[kind])(sid)
+        if how == "clear":
+            del lst[:]
+        elif how == "pop":
+            if lst:
+                lst.pop(self.rng.randrange(len(lst)))
+        elif how == "extend":
+            other = [k for k in sorted(GETTERS) if k != kind and
+                     k.split("_")[0] == kind.split("_")[0]]
+            for k in other:
+                lst += getattr(mgr, GETTERS[k])(sid)
+        elif how == "dup":
+            lst.extend(list(lst))
+        self.record(dict(op="client_mutate", m=m, sv=sv, kind=kind, how=how),
+                    "ok", what="client: lst = mgr(%r).%s(); %s on lst" %
+                    (mid, GETTERS[kind], how))
+
+    def iterate_remove(self, m, sv, kind):
+        """for inst in mgr.get_owned_X(sid): mgr.remove_X(sid, inst.path)
+        (failing removals - referenced instances - are skipped)."""
+        mgr, mid = self.mgrs[m]
+        sid = self.sids[(m, sv)]
+        getter = GETTERS["owned_" + kind]
+        self.record(dict(op="iter_begin", m=m, sv=sv, kind=kind), "ok",
+                    what="for inst in mgr(%r).%s():" % (mid, getter))
+        visited = []
+        for inst in getattr(mgr, getter)(sid):
+            if kind == "s":
+                visited.append(sub_name(inst))
+                self.remove("subscription", m, sv,
+                            fname=inst.path["Filter"]["Name"],
+                            dname=inst.path["Handler"]["Name"], path=inst.path)
+            elif kind == "f":
+                visited.append(inst["Name"])
+                self.remove("filter", m, sv, fname=inst["Name"],
+                            path=inst.path)
+            else:
+                visited.append(inst["Name"])
+                self.remove("destination", m, sv, dname=inst["Name"],
+                            path=inst.path)
+        self.record(dict(op="iter_end", m=m, sv=sv, kind=kind,
+                         visited=visited), "ok",
+                    what="end of the loop over %s() (visited %s)" %
+                    (getter, visited))
 
     def remove_server(self, m, sv):
         mgr, mid = self.mgrs[m]
@@ -317,6 +411,22 @@ class World:
                     what="foreign CreateInstance %s %s" % (cls, name))
 
 
+def pick_xid(rng, k):
+    """Owned destination / filter ID: mostly two plain ones (so that duplicate
+    adds happen), sometimes one with regex metacharacters, sometimes the
+    value class "colon"."""
+    x = rng.random()
+    if x < 0.08:
+        return k + ":1"
+    if x < 0.20:
+        return rng.choice([k + ".1", k + "*", "(" + k, k + " 1", "[%s]" % k])
+    return k + rng.choice("12")
+
+
+def pick_pform(rng):
+    return "host" if rng.random() < 0.15 else "plain"
+
+
 def run_history(rng, nops):
     nsv = rng.choice([1, 1, 2])
     w = World(rng, nsv)
@@ -355,12 +465,12 @@ def run_history(rng, nops):
         if x < 0.22:
             owned = rng.random() < 0.7
             w.add_destination(m, sv, rng.choice(["u1", "u2"]), owned,
-                              rng.choice(["d1", "d2"]),
+                              pick_xid(rng, "d"),
                               "perm-d%d" % rng.randint(1, 2),
                               rng.random() < 0.05)
         elif x < 0.38:
             owned = rng.random() < 0.7
-            w.add_filter(m, sv, owned, rng.choice(["f1", "f2"]),
+            w.add_filter(m, sv, owned, pick_xid(rng, "f"),
                          "perm-f%d" % rng.randint(1, 2), rng.random() < 0.05)
         elif x < 0.58:
             fs, ds = own_f + perm_f, own_d + perm_d
@@ -369,20 +479,34 @@ def run_history(rng, nops):
                                    rng.random() < 0.65)
         elif x < 0.66:
             if own_d + perm_d:
-                w.remove("destination", m, sv, dname=rng.choice(own_d + perm_d))
+                w.remove("destination", m, sv, dname=rng.choice(own_d + perm_d),
+                         pform=pick_pform(rng))
         elif x < 0.74:
             if own_f + perm_f:
-                w.remove("filter", m, sv, fname=rng.choice(own_f + perm_f))
+                w.remove("filter", m, sv, fname=rng.choice(own_f + perm_f),
+                         pform=pick_pform(rng))
         elif x < 0.80:
             mine = [s for s in content["s"]
                     if w.sub_creator.get((sv, s), "") in ("", mid)]
             if mine:
                 f, d = rng.choice(mine).split("|")
-                w.remove("subscription", m, sv, fname=f, dname=d)
-        elif x < 0.86:
+                w.remove("subscription", m, sv, fname=f, dname=d,
+                         pform=pick_pform(rng))
+        elif x < 0.84:
             w.remove_server(m, sv)
-        elif x < 0.90:
+        elif x < 0.87:
             w.remove_all(m, rng.choice([False, True, "raise"]))
+        elif x < 0.91:
+            # the client changes a list it was handed out; prefer a list that
+            # is not empty
+            mine = [o for o in w.owned_lists()
+                    if o["m"] == m and o["sv"] == sv][0]
+            kinds = ["owned_" + k for k in "dfs" if mine[k]] or ["owned_d"]
+            if rng.random() < 0.2:
+                kinds = ["all_d", "all_f", "all_s"]
+            w.client_mutate(m, sv, rng.choice(kinds), rng.choice(MUTATIONS))
+        elif x < 0.93:
+            w.iterate_remove(m, sv, rng.choice("dfs"))
         elif x < 0.96:
             # client restart: new manager object with the same ID
             w.new_manager(m, mid)
@@ -425,6 +549,80 @@ def directed_histories(rng):
     w.new_manager(1, "abc")
     w.add_server(1, 1)
     out.append(w)
+
+    def populated(mid):
+        """2 owned + 1 permanent destination, 3 owned + 1 permanent filter,
+        owned subscriptions f1-d1 and (permanent filter)-d2"""
+        w = World(rng, 1)
+        w.new_manager(1, mid)
+        w.add_server(1, 1)
+        w.add_destination(1, 1, "u1", False, "", "perm-d1", False)
+        w.add_filter(1, 1, False, "", "perm-f1", False)
+        for i, u in ((1, "u1"), (2, "u2")):
+            w.add_destination(1, 1, u, True, "d%d" % i, "", False)
+        for i in (1, 2, 3):
+            w.add_filter(1, 1, True, "f%d" % i, "", False)
+        w.add_subscription(1, 1, "pywbemfilter:%s:f1" % mid,
+                           "pywbemdestination:%s:d1" % mid, True)
+        w.add_subscription(1, 1, "perm-f1", "pywbemdestination:%s:d2" % mid,
+                           True)
+        return w
+    # Rediscover: owned subscriptions with every combination of owned /
+    # permanent ends except permanent-permanent (the known finding above),
+    # client restart, deregistration
+    for mid in ("abc", "a.c"):
+        w = populated(mid)
+        w.add_subscription(1, 1, "pywbemfilter:%s:f2" % mid, "perm-d1", True)
+        w.new_manager(1, mid)
+        w.add_server(1, 1)
+        w.remove_server(1, 1)
+        out.append(w)
+    # SubMgr.tla client_mutate: every list kind, every kind of change (the
+    # owned lists are observed after each), then the manager is used on
+    for kind in sorted(GETTERS):
+        w = populated("abc")
+        for how in ("pop", "extend", "dup", "clear"):
+            w.client_mutate(1, 1, kind, how)
+        w.add_filter(1, 1, True, "f4", "", False)
+        w.remove_server(1, 1)
+        out.append(w)
+    # SubMgr.tla iter_begin / iter_end: the loop over each kind of owned list
+    # (subscriptions first: then nothing is referenced any more)
+    for order in ("sfd", "fds", "dsf"):
+        w = populated("a.c")
+        for kind in order:
+            w.iterate_remove(1, 1, kind)
+        w.remove_all(1, False)
+        out.append(w)
+    # path forms: each remove_* with the path as the *Names operations return
+    # it (after plain removals of what references the instance), then
+    # deregistration; a still referenced destination / filter must be refused
+    # in both path forms
+    fn, dn = "pywbemfilter:abc:f1", "pywbemdestination:abc:d1"
+    for kind in ("subscription", "filter", "destination", "referenced"):
+        w = populated("abc")
+        if kind == "referenced":
+            w.remove("destination", 1, 1, dname=dn, pform="host")
+            w.remove("filter", 1, 1, fname=fn, pform="host")
+        else:
+            w.remove("subscription", 1, 1, fname=fn, dname=dn,
+                     pform="host" if kind == "subscription" else "plain")
+        if kind == "filter":
+            w.remove("filter", 1, 1, fname=fn, pform="host")
+        if kind == "destination":
+            w.remove("destination", 1, 1, dname=dn, pform="host")
+        w.remove_server(1, 1)
+        out.append(w)
+    # value class "colon" of owned IDs followed by a client restart
+    w = World(rng, 1)
+    w.new_manager(1, "abc")
+    w.add_server(1, 1)
+    w.add_destination(1, 1, "u1", True, "d:1", "", False)
+    w.add_filter(1, 1, True, "f:1", "", False)
+    w.new_manager(1, "abc")
+    w.add_server(1, 1)
+    w.remove_server(1, 1)
+    out.append(w)
     return out
 
 
@@ -434,6 +632,36 @@ def signature(ev, clauses, w, i=None):
     s = "%s:%s" % (ev["op"], "+".join(sorted(clauses)))
     if ev["res"] not in ("ok", "existing"):
         s += ":" + ev["res"]
+    if ev["pform"] == "host":
+        s += ":host-path"
+    if ev["op"] == "add_server" and "OwnedLists.Destinations" in clauses \
+            and set(clauses) <= {"OwnedLists.Destinations",
+                                 "OwnedLists.Subscriptions"}:
+        # are the destinations that were not rediscovered exactly the ones
+        # whose destination ID contains ':'?
+        mid = ev["id"]
+        pre = "pywbemdestination:%s:" % mid
+        on_server = set()
+        for c in ev["content"]:
+            if c["sv"] == ev["sv"]:
+                on_server = set(n for n in c["d"] if n.startswith(pre))
+        listed_d, listed_s = set(), set()
+        for o in ev["owned_lists"]:
+            if o["m"] == ev["m"] and o["sv"] == ev["sv"]:
+                listed_d, listed_s = set(o["d"]), set(o["s"])
+        miss_d = on_server - listed_d
+        miss_s = [k[1] for k, c in creator.items()
+                  if k[0] == ev["sv"] and c == mid and k[1] not in listed_s]
+        fpre = "pywbemfilter:%s:" % mid
+        if miss_d and listed_d <= on_server and \
+                all(":" in n[len(pre):] for n in miss_d) and \
+                all(x.split("|", 1)[1] in miss_d or
+                    not (x.startswith(fpre) or
+                         x.split("|", 1)[1].startswith(pre))
+                    for x in miss_s) and \
+                not (listed_s - set(k[1] for k, c in creator.items()
+                                    if c == mid)):
+            s += ":owned-destination-id-with-colon"
     if ev["op"] == "add_server" and clauses == ["OwnedLists.Subscriptions"]:
         # which owned subscriptions were not rediscovered?
         mid = ev["id"]
@@ -462,14 +690,17 @@ def run(ctx):
     for cfg, what in (("SubMgrOwnLegacy.cfg", "unescaped ID: add_server "
                        "crashes on non-compilable IDs"),
                       ("SubMgrOwnLegacyIso.cfg", "unescaped ID: a manager "
-                       "adopts another manager's instances")):
+                       "adopts another manager's instances"),
+                      ("SubMgrOwnAlias.cfg", "get_owned_*() hands out the "
+                       "bookkeeping list itself: a client-side change of the "
+                       "list breaks ListsEqualServer")):
         r = ctx.tlc("SubMgrOwn", cfg, must_pass=False, count=False,
                     label="must fail: " + what)
         if r.violated is None:
             raise vlib.MachineryError("%s did not fail" % cfg)
         sens.append("%s violates %s as required (%s)" % (cfg, r.violated, what))
     ctx.extra["sensitivity"] = sens
-    nh = 120 if quick else 2500
+    nh = 160 if quick else 2500
     worlds = directed_histories(ctx.rng)
     worlds += [run_history(ctx.rng, ctx.rng.randint(6, 22)) for _ in range(nh)]
     verdicts = ctx.validate_traces("SubMgrTrace", "SubMgrTrace.cfg",
@@ -505,6 +736,11 @@ def run(ctx):
         "client restart replaces the manager object; stale manager objects "
         "are not observed",
         "listener URLs: two fixed forms (http with port, https with port)",
+        "client-side mutation is applied to the LISTS the manager hands out; "
+        "the CIMInstance objects in them are shared with the manager by design "
+        "(changing their path corrupts the bookkeeping) - outside the statement",
+        "path forms: plain and host-qualified; paths whose namespace differs in "
+        "lexical case are not generated",
     ]
 
 
